@@ -3,6 +3,8 @@ M-Wire proofs: decode ∘ encode = id (strict decoder), for every well-typed val
 -/
 import ThriftVerif.Wire.Value
 
+set_option linter.unusedSimpArgs false
+
 namespace ThriftVerif.Wire
 
 mutual
